@@ -1,0 +1,27 @@
+//! Instrumentation points for schedule-controlled conformance checking.
+//!
+//! Compiled only with `--cfg isographlabs_isograph_verif`.  `point(label, arg)` is called
+//! immediately *before* each atomic / lock step of `atomic_arena`, `sharded_set` and
+//! `intern::InternTable`.  When no hook is installed it is a single relaxed load.
+
+use std::sync::atomic::AtomicUsize;
+use std::sync::atomic::Ordering;
+
+pub type Hook = fn(&'static str, usize);
+
+static HOOK: AtomicUsize = AtomicUsize::new(0);
+
+/// Install (or with `None` remove) the process-wide hook.
+pub fn install(h: Option<Hook>) {
+    HOOK.store(h.map_or(0, |f| f as usize), Ordering::SeqCst);
+}
+
+#[inline]
+pub fn point(label: &'static str, arg: usize) {
+    let p = HOOK.load(Ordering::Relaxed);
+    if p != 0 {
+        // `p` was produced from a `Hook` in `install`.
+        let f: Hook = unsafe { std::mem::transmute::<usize, Hook>(p) };
+        f(label, arg);
+    }
+}
